@@ -57,6 +57,22 @@ CLAIMED["C10"] = dict(
    technique="Coq proof (invariant + induction over histories, axiom-free) + AST translator + lock-step correspondence",
    design="DESIGN.md section 4, C10")
 
+CLAIMED["C08"] = dict(
+   text="Axiom-free Coq theorems about an executable model of CompositeTransform._cascade, InverseTransform and "
+        "MultiscaleCompositeTransform (add_transform bookkeeping, forward chunk/flatten/cat, inverse slice/view/cat) "
+        "as combinators on (forward, inverse) pairs over ANY data type and any commutative monoid of log-dets: the "
+        "composite applies the parts in order and sums their log-dets, its inverse runs the inverses in reverse order, "
+        "the inverse wrapper swaps directions, invertibility-with-cancelling-log-dets is preserved by every nesting; "
+        "for the multiscale wrapper, for every number of stages, split dimension, shape and odd/even size, inverse "
+        "undoes forward, output size equals input size, and split/cat along a dimension are mutually inverse. The "
+        "model is tied to the code by running the extracted combinators against the real wrappers on hundreds of "
+        "nested programs over exact leaves (x->2x+k with log-det 2^k, reversal) and on all small shapes/split "
+        "dims/stage counts, with exact equality; add_transform's shapes and error classes are compared as well.",
+   note="Trusted: Coq kernel (no axioms); extraction; harness. No translated fragment: the tie is the exact "
+        "correspondence run. Library leaf transforms are covered by C01/C02; here leaves are abstract.",
+   technique="Coq proof (induction over part lists / stages, axiom-free) + extracted-model correspondence",
+   design="DESIGN.md section 4, C08")
+
 def main():
     checks = []
     for pid in ALL:
